@@ -334,7 +334,7 @@ class C16(Prop):
                     parents[id(c)] = parents.get(id(c), 0) + 1
                 elif op == "extend_wrap":
                     c = w.pick("cls", on)
-                    k = name if name in c.VALIDATORS else "type"
+                    k = name if name in c.VALIDATORS else ["type", "$ref", "if", "properties"][fl % 4]
                     if k in c.VALIDATORS:
                         orig = c.VALIDATORS[k]
                         calls = []
@@ -376,6 +376,12 @@ class C16(Prop):
                     e = w.add("cls", V.extend(c, type_checker=tc), desc)
                     if e.TYPE_CHECKER is not tc and probe_typechecker(e.TYPE_CHECKER) != probe_typechecker(tc):
                         res.fail(("extend-ignores-type-checker",), desc)
+                    # everything that is not about types comes from the parent: where ids are read, the metaschema,
+                    # the keyword table
+                    pc, pe = probe_class(c), probe_class(e)
+                    if pc[-3:] != pe[-3:]:
+                        res.fail(("extend-with-type-checker-changes-something-else",),
+                                 "%s: parent %r, child %r" % (desc, pc[-3:][0], pe[-3:][0]))
                 elif op in ("create", "create_versioned"):
                     c = w.pick("cls", on)
                     meta = dict(c.META_SCHEMA)
